@@ -7,6 +7,7 @@ import MimeModel.Spec.Json
 import MimeModel.Spec.Zip
 import MimeModel.Model.XmlTok
 import MimeModel.Model.HtmlTok
+import MimeModel.Model.Closed
 /-
   Line-protocol driver for the correspondence check (core Lean only; compiled).
   Input : one operation per line, `op args... => go-result`
@@ -320,7 +321,18 @@ def handle (line : String) : String :=
             let pre := ofString "text/plain; charset="
             if hasPrefix gleaf pre then Spec.charsetSpec h (bhex (gleaf.drop pre.length)) else ""
           | none => ""
-        let all := [d1, d2, dxi, dht, sp, sp8, sp11].filter (· != "")
+        -- the CLOSED model: the whole of Detect computed from the bytes alone (no verdict, token or instruction
+        -- taken from the implementation), against the implementation's chain and result string
+        let dcl :=
+          let r := Closed.detect raw l
+          let mc := chainStr r.chain
+          let ms := match r.chain with
+            | [] => []
+            | leaf :: _ => MT.withCharset leaf.mime r.charset
+          if mc != goChain then s!"DIFF closed-detect chain model={mc}"
+          else if (HtmlTok.startTags h).isNone || !isAsciiBytes r.charset then ""
+          else if chainStr r.chain ++ " " ++ bhex ms == goRes then "" else s!"DIFF closed-detect string model={bhex ms}"
+        let all := [d1, d2, dxi, dht, dcl, sp, sp8, sp11].filter (· != "")
         if all.isEmpty then "OK" else String.intercalate " ; " all
       | _, _, _, _ => "BAD args"
     | ["jparse", q, hx] =>
